@@ -329,7 +329,8 @@ fn apply_stack_effects(fun_builder: &mut FunBuilder, instructions: &mut [Symboli
   let mut slots: i32 = 1;
 
   for instruction in instructions {
-    if let SymbolicByteCode::PushHandler((_, label)) = instruction {
+    // only fill in a depth the compiler left as a placeholder
+    if let SymbolicByteCode::PushHandler((0, label)) = instruction {
       // TODO handle to many slots
       *instruction = SymbolicByteCode::PushHandler((slots as u16, *label))
     }
